@@ -240,6 +240,16 @@ def _trace_functions(callable_, repo_prefix: str) -> List[str]:
     return sorted(seen)
 
 
+def _raised_in_harness(e: BaseException) -> bool:
+    tb = e.__traceback__
+    last = None
+    while tb is not None:
+        last = tb.tb_frame.f_code.co_filename
+        tb = tb.tb_next
+    here = os.path.dirname(os.path.dirname(os.path.abspath(__file__)))
+    return bool(last) and os.path.abspath(last).startswith(os.path.join(here, "harness") + os.sep)
+
+
 def concrete_run(ob: Obligation, part: Dict[str, Any], args: Dict[str, Any]):
     """Level-1 replay: the harness body in plain Python (no tracer)."""
     try:
@@ -249,6 +259,10 @@ def concrete_run(ob: Obligation, part: Dict[str, Any], args: Dict[str, Any]):
     except ModelGap as e:
         return "model-gap", str(e)
     except Exception as e:  # noqa: BLE001
+        if isinstance(e, (AttributeError, ImportError, NameError)) and _raised_in_harness(e):
+            # the harness itself refers to a name of xonsh that is not there (e.g. a private helper was renamed):
+            # the harness is out of date - nothing is known about the property
+            return "harness-outdated", f"{type(e).__name__}: {e}"
         return "violation", f"exception: {type(e).__name__}: {e}"
     if r is None:
         return "holds", None
